@@ -223,7 +223,7 @@ Definition pl_names : list str :=
 Definition pm_names : list str :=
   [asc "UseNone"; asc "UseOutlines"; asc "UseThumbs"; asc "FullScreen"; asc "UseOC"; asc "UseAttachments"].
 
-(* (*PageLayout).String / (*PageMode).String *)
+(* PageLayout.String / PageMode.String *)
 Definition enum_name (tbl : list str) (v : N) : str := nth (N.to_nat v) tbl (asc "?").
 (* PageLayoutFor / PageModeFor: switch strings.ToLower(s) *)
 Fixpoint enum_for_aux (tbl : list str) (i : N) (s : str) : option N :=
@@ -243,7 +243,7 @@ Definition vprefs := list (option N).
 Definition vp_slot (vp : vprefs) (i : nat) : option N := nth i vp None.
 Definition has (o : option N) : bool := match o with Some _ => true | None => false end.
 
-(* model/document.go (*ViewerPreferences).Validate(version); version is 10*major+minor *)
+(* model/document.go ViewerPreferences.Validate(version); version is 10*major+minor *)
 Definition vp_validate (ver : N) (vp : vprefs) : bool :=
   negb (has (vp_slot vp 7) && (ver <? 13))
   && negb ((has (vp_slot vp 8) || has (vp_slot vp 9) || has (vp_slot vp 10) || has (vp_slot vp 11))
@@ -371,7 +371,7 @@ Definition step (d : doc) (o : op) : doc * bool :=
     done (set_vp d (Some (match d_vp d with None => vp | Some old => vp_merge old vp end)))
   | VReset => done (set_vp d None)
   | AAdd id data =>     (* api.AddAttachments with one file, model AddAttachment *)
-    done (set_att d (m_set (uniq_id (S (length (d_att d))) id (d_att d)) data (d_att d)))
+    done (set_att d (m_set (uniq_id (S (List.length (d_att d))) id (d_att d)) data (d_att d)))
   | ARemove [] =>       (* RemoveAttachments: no name tree -> false; else drop the tree *)
     match d_att d with [] => fail d | _ => done (set_att d []) end
   | ARemove ids =>
@@ -471,7 +471,7 @@ Definition wf_op (strict : bool) (o : op) : bool :=
   | PAdd kvs => forallb (fun kv => wfname strict (fst kv)) kvs
   | PRemove [] => strict
   | PRemove ks => forallb (wfname strict) ks
-  | VSet vp => wf_vp vp && (length vp =? 16)%nat
+  | VSet vp => wf_vp vp && Nat.eqb (List.length vp) 16
   | _ => true
   end.
 
